@@ -348,13 +348,13 @@ def step (line : String) : String :=
     | "addrspan" => hexOfChars (formatAddrspan spans)
     | _ => "bad-op"
   | "lsy" :: kind :: rowsF :: _ =>
-    -- lsy <symbols|mesen> <namehex:c|l:value:(-|addrstart/outp|addrstart/n),...|->
+    -- lsy <symbols|mesen> <namehex:c|l:value:(-|addrstart/unit/outp|addrstart/unit/n),...|->
     let rows : List SymRow := (listField rowsF).filterMap fun r =>
       match r.splitOn ":" with
       | [n, k, v, b] =>
-        let bank : Option (Int × Option Nat) := if b == "-" then none else
+        let bank : Option (Int × Nat × Option Nat) := if b == "-" then none else
           match b.splitOn "/" with
-          | [a0, o] => some (a0.toInt?.getD 0, o.toNat?)
+          | [a0, u, o] => some (a0.toInt?.getD 0, u.toNat?.getD 8, o.toNat?)
           | _ => none
         some ⟨unhexText n, k == "c", v.toInt?.getD 0, bank⟩
       | _ => none
